@@ -154,7 +154,9 @@ def classify(prop, t, m, domain=None):
     """What does this trace mean for `prop`?  'ok' | ('fails', clause, step) | ('reject', field, step)"""
     domain = domain or PROPS[prop]["domain"]
     relevant_mon = PROPS[prop].get("monitor_props", [prop])
-    if m["verdict"] == "FAILS" and m.get("prop") in relevant_mon:
+    # a clause can belong to several properties ("C05+C18")
+    mprops = (m.get("prop") or "").split("+")
+    if m["verdict"] == "FAILS" and any(x in relevant_mon for x in mprops):
         return ("fails", m.get("clause", "?"), int(m.get("step", 0)), m.get("detail", ""))
     if t["verdict"] == "REJECT":
         field = t.get("field", "?")
@@ -164,7 +166,7 @@ def classify(prop, t, m, domain=None):
                     f"model={t.get('model')} impl={t.get('impl')}")
         if owners is None or prop in owners:
             # a monitor failure of another property *before* this step explains the divergence
-            if m["verdict"] == "FAILS" and int(m.get("step", 0)) <= int(t.get("step", 0)) and m.get("prop") not in relevant_mon:
+            if m["verdict"] == "FAILS" and int(m.get("step", 0)) <= int(t.get("step", 0)) and not any(x in relevant_mon for x in mprops):
                 return ("ok",)
             return ("reject", field, int(t.get("step", 0)), f"model={t.get('model')} impl={t.get('impl')}")
     return ("ok",)
